@@ -200,63 +200,104 @@ def buildTracts (uid0 : Nat) (handedDown : Str) (parseQQ : Bool) (source : OptSt
 def secWithinIndexes (specs : List (Str × Str × Bool)) : List Nat :=
   (List.range specs.length).filter (fun i => match specs[i]? with | some s => s.2.2 | none => false)
 
-def plssParser (mc : MC) (uid0 : Nat) (text : Str) (a : ParserArgs)
-    (look : Option Str → TRS.TrsDict := TRS.trsToDict) : Except PyErr ParserOut := do
-  -- handed-down config
+/-- the config text handed down to every tract -/
+def handedDownText (a : ParserArgs) : Except PyErr Str :=
   let hd0 : Str := if a.parseQQ then a.handedDownConfig ++ S ",parse_qq" else a.handedDownConfig
-  let c0 ← Config.ofText hd0
-  let c1 := (((((c0.set "clean_qq" (.b a.cleanQQ)).setOpt "qq_depth_min" (optI a.qqDepthMin)).setOpt
-              "qq_depth_max" (optI a.qqDepthMax)).setOpt "qq_depth" (optI a.qqDepth)).set "break_halves" (.b a.breakHalves))
-  let handedDown := Config.toText c1
-  let mandate := !a.segment && a.layout.isSome
-  let pp ← plssPreprocess mc text a.defaultNS a.defaultEW a.ocrScrub
-  let ptext := pp.text
-  let layout := match a.layout with | some l => l | none => deduceLayout ptext
-  let cleanUp := match a.cleanUp with | some b => b | none => layout != COPY_ALL
-  let mut fl : Tract.Flags := {}
-  if !pp.fixed.isEmpty then
-    let flag := S "fixed_twprge<" ++ pyJoin (S ",") (pp.fixed.map Unpack.twprgeNaturalToShort) ++ S ">"
-    fl := { fl with w := [.str flag], wl := [.tup [.str flag, .str flag]] }
-  -- parse(segment)
-  let mut blocks : List Str := [ptext]
-  let mut parent : ParentSt := { fl := fl }
-  if a.segment then
-    let (bs, un) ← plssChunker mc ptext layout
-    blocks := bs
-    parent := { parent with unused := parent.unused ++ un }
-  let pc : ParserCfg := { mandateLayout := mandate, requireColon := a.requireColon, secWithin := a.secWithin }
-  for chunk in blocks do
-    parent ← chunkParser mc pc chunk (layout == COPY_ALL) layout parent
-  if a.secWithin then
-    let (cs, un) := rebuildSecWithin parent.comps parent.unused Gen.MIN_REPORTABLE_UNUSED_LEN
-    parent := { parent with comps := cs, unused := un }
-  -- construct_tracts
-  let specs ← tractSpecs cleanUp parent.comps
-  let mut tracts ← buildTracts uid0 handedDown a.parseQQ a.source text look 0 specs
-  let next := specs.length
-  let secWithinIdx := secWithinIndexes specs
-  fl := parent.fl
-  -- examine_unused
-  for u in parent.unused do
-    if u.2.length ≥ Gen.MIN_REPORTABLE_UNUSED_LEN then
-      let flag := S "unused_desc<" ++ u.2 ++ S ">"
-      fl := { fl with e := fl.e ++ [.str flag], el := fl.el ++ [.tup [.str flag, .str u.2]] }
-  -- check_sec_within_tracts
-  for i in secWithinIdx do
+  match Config.ofText hd0 with
+  | .error e => .error e
+  | .ok c0 =>
+    .ok (Config.toText (((((c0.set "clean_qq" (.b a.cleanQQ)).setOpt "qq_depth_min" (optI a.qqDepthMin)).setOpt
+          "qq_depth_max" (optI a.qqDepthMax)).setOpt "qq_depth" (optI a.qqDepth)).set "break_halves" (.b a.breakHalves)))
+
+/-- the `fixed_twprge<…>` warning of the preprocessor -/
+def fixedFlags (fixed : List Str) : Tract.Flags :=
+  if fixed.isEmpty then {} else
+  let flag := S "fixed_twprge<" ++ pyJoin (S ",") (fixed.map Unpack.twprgeNaturalToShort) ++ S ">"
+  { w := [.str flag], wl := [.tup [.str flag, .str flag]] }
+
+/-- `for chunk in blocks: ChunkParser(chunk, …, parent=self)` -/
+def parseBlocks (mc : MC) (pc : ParserCfg) (copyAll : Bool) (layout : Str) :
+    List Str → ParentSt → Except PyErr ParentSt
+  | [], parent => .ok parent
+  | chunk :: rest, parent =>
+    match chunkParser mc pc chunk copyAll layout parent with
+    | .error e => .error e
+    | .ok p => parseBlocks mc pc copyAll layout rest p
+
+def addEFlag (fl : Tract.Flags) (flag ctx : Str) : Tract.Flags :=
+  { fl with e := fl.e ++ [.str flag], el := fl.el ++ [.tup [.str flag, .str ctx]] }
+def addWFlag (fl : Tract.Flags) (flag ctx : Str) : Tract.Flags :=
+  { fl with w := fl.w ++ [.str flag], wl := fl.wl ++ [.tup [.str flag, .str ctx]] }
+
+/-- `examine_unused` -/
+def examineUnused (fl : Tract.Flags) (unused : List (Nat × Str)) : Tract.Flags :=
+  unused.foldl (fun fl u =>
+    if u.2.length ≥ Gen.MIN_REPORTABLE_UNUSED_LEN then addEFlag fl (S "unused_desc<" ++ u.2 ++ S ">") u.2 else fl) fl
+
+/-- `check_sec_within_tracts` -/
+def secWithinFlags (tracts : List TractObj) : Tract.Flags → List Nat → Except PyErr Tract.Flags
+  | fl, [] => .ok fl
+  | fl, i :: rest =>
     match tracts[i]? with
-    | some t =>
-      let flag := S "sec_within<" ++ t.trs.trs ++ S ">"
-      fl := { fl with w := fl.w ++ [.str flag], wl := fl.wl ++ [.tup [.str flag, .str (quickDescShort t)]] }
-    | none => throw .indexError
-  -- check_error_tracts
-  if tracts.any (fun t => TRS.isError t.trs) then
-    let flag := S "twprge_error"
-    fl := { fl with e := fl.e ++ [.str flag], el := fl.el ++ [.tup [.str flag, .str flag]] }
-  -- hand_down_flags
-  let dfl := fl
-  tracts := tracts.map (fun t => { t with fl := { w := dfl.w ++ t.fl.w, wl := dfl.wl ++ t.fl.wl, e := dfl.e ++ t.fl.e, el := dfl.el ++ t.fl.el } })
-  return { tracts := tracts, fl := fl, layout := layout, text := ptext, nextUid := uid0 + next,
-           diverged := pp.diverged || tracts.any (·.diverged), handedDown := handedDown }
+    | some t => secWithinFlags tracts (addWFlag fl (S "sec_within<" ++ t.trs.trs ++ S ">") (quickDescShort t)) rest
+    | none => .error .indexError
+
+/-- `check_error_tracts` -/
+def errorTractFlag (fl : Tract.Flags) (tracts : List TractObj) : Tract.Flags :=
+  if tracts.any (fun t => TRS.isError t.trs) then addEFlag fl (S "twprge_error") (S "twprge_error") else fl
+
+/-- `hand_down_flags`: the description's flags are prepended to each tract's own -/
+def handDownFlags (dfl : Tract.Flags) (tracts : List TractObj) : List TractObj :=
+  tracts.map (fun t => { t with fl := { w := dfl.w ++ t.fl.w, wl := dfl.wl ++ t.fl.wl, e := dfl.e ++ t.fl.e, el := dfl.el ++ t.fl.el } })
+
+/-- chunk the text (when segmenting), parse each chunk, and (sec_within) merge the leftovers -/
+def parseAllBlocks (mc : MC) (ptext : Str) (layout : Str) (a : ParserArgs) (fl : Tract.Flags) : Except PyErr ParentSt :=
+  let pc : ParserCfg := { mandateLayout := !a.segment && a.layout.isSome, requireColon := a.requireColon, secWithin := a.secWithin }
+  let start : Except PyErr (List Str × ParentSt) :=
+    if a.segment then
+      match plssChunker mc ptext layout with
+      | .error e => .error e
+      | .ok (bs, un) => .ok (bs, { fl := fl, unused := un })
+    else .ok ([ptext], { fl := fl })
+  match start with
+  | .error e => .error e
+  | .ok (blocks, parent) =>
+    match parseBlocks mc pc (layout == COPY_ALL) layout blocks parent with
+    | .error e => .error e
+    | .ok parent =>
+      if a.secWithin then
+        let r := rebuildSecWithin parent.comps parent.unused Gen.MIN_REPORTABLE_UNUSED_LEN
+        .ok { parent with comps := r.1, unused := r.2 }
+      else .ok parent
+
+def plssParser (mc : MC) (uid0 : Nat) (text : Str) (a : ParserArgs)
+    (look : Option Str → TRS.TrsDict := TRS.trsToDict) : Except PyErr ParserOut :=
+  match handedDownText a with
+  | .error e => .error e
+  | .ok handedDown =>
+    match plssPreprocess mc text a.defaultNS a.defaultEW a.ocrScrub with
+    | .error e => .error e
+    | .ok pp =>
+      let ptext := pp.text
+      let layout := match a.layout with | some l => l | none => deduceLayout ptext
+      let cleanUp := match a.cleanUp with | some b => b | none => layout != COPY_ALL
+      match parseAllBlocks mc ptext layout a (fixedFlags pp.fixed) with
+      | .error e => .error e
+      | .ok parent =>
+        -- construct_tracts
+        match tractSpecs cleanUp parent.comps with
+        | .error e => .error e
+        | .ok specs =>
+          match buildTracts uid0 handedDown a.parseQQ a.source text look 0 specs with
+          | .error e => .error e
+          | .ok tracts =>
+            match secWithinFlags tracts (examineUnused parent.fl parent.unused) (secWithinIndexes specs) with
+            | .error e => .error e
+            | .ok fl1 =>
+              let fl := errorTractFlag fl1 tracts
+              let tracts := handDownFlags fl tracts
+              .ok { tracts := tracts, fl := fl, layout := layout, text := ptext, nextUid := uid0 + specs.length,
+                    diverged := pp.diverged || tracts.any (·.diverged), handedDown := handedDown }
 
 /-! ### PLSSDesc -/
 
@@ -327,38 +368,48 @@ def effectiveDesc (d : DescObj) (kw : DescKw) : ParserArgs :=
 
 def descParse (mc : MC) (uid0 : Nat) (d : DescObj) (kw : DescKw) (commit : Bool)
     (look : Option Str → TRS.TrsDict := TRS.trsToDict) :
-    Except PyErr (DescObj × ParserOut) := do
-  let args := effectiveDesc d kw
-  let out ← plssParser mc uid0 d.origDesc args look
-  if commit then
-    return ({ d with tracts := out.tracts, fl := out.fl, currentLayout := some out.layout, ppDesc := out.text,
-                     diverged := d.diverged || out.diverged }, out)
-  else return ({ d with diverged := d.diverged || out.diverged }, out)
+    Except PyErr (DescObj × ParserOut) :=
+  match plssParser mc uid0 d.origDesc (effectiveDesc d kw) look with
+  | .error e => .error e
+  | .ok out =>
+    if commit then
+      .ok ({ d with tracts := out.tracts, fl := out.fl, currentLayout := some out.layout, ppDesc := out.text,
+                    diverged := d.diverged || out.diverged }, out)
+    else .ok ({ d with diverged := d.diverged || out.diverged }, out)
 
 def descPreprocess (mc : MC) (d : DescObj) (defNS defEW : Option Str) (ocr : Option Bool) (commit : Bool) :
-    Except PyErr (DescObj × Str) := do
+    Except PyErr (DescObj × Str) :=
   let ns := match defNS with | some x => some x | none => getOptS d.attrs "default_ns"
   let ew := match defEW with | some x => some x | none => getOptS d.attrs "default_ew"
   let o := ocr.getD (getB d.attrs "ocr_scrub")
-  let pp ← plssPreprocess mc d.origDesc ns ew o
-  return (if commit then { d with ppDesc := pp.text } else d, pp.text)
+  match plssPreprocess mc d.origDesc ns ew o with
+  | .error e => .error e
+  | .ok pp => .ok (if commit then { d with ppDesc := pp.text } else d, pp.text)
+
+/-- the attributes of a new PLSSDesc: defaults, then the config, then the explicit arguments -/
+def descInitAttrs (c : Cfg) (layout : Option Str) (parseQQ waitToParse : Option Bool) : Attrs :=
+  let attrs := applyConfig descDefaults Gen.PLSSDESC_ATTRIBUTES c
+  let attrs := match parseQQ with | some b => attrs.set "parse_qq" (.b b) | none => attrs
+  let attrs := match waitToParse with | some b => attrs.set "wait_to_parse" (.b b) | none => attrs
+  match layout with | some l => attrs.set "layout" (.s l) | none => attrs
 
 /-- `PLSSDesc(raw, layout, config, parse_qq, source, wait_to_parse)` for a str `raw` -/
 def descInit (mc : MC) (uid0 : Nat) (raw : Str) (layout : Option Str) (config : CfgArg) (parseQQ : Option Bool)
     (source : OptStr) (waitToParse : Option Bool) (look : Option Str → TRS.TrsDict := TRS.trsToDict) :
-    Except PyErr (DescObj × Nat) := do
-  let c ← resolveCfgArg config
-  let attrs := applyConfig descDefaults Gen.PLSSDESC_ATTRIBUTES c
-  let attrs := match parseQQ with | some b => attrs.set "parse_qq" (.b b) | none => attrs
-  let attrs := match waitToParse with | some b => attrs.set "wait_to_parse" (.b b) | none => attrs
-  let attrs := match layout with | some l => attrs.set "layout" (.s l) | none => attrs
-  let d : DescObj := { origDesc := raw, source := source, attrs := attrs, config := c, ppDesc := raw,
-                       layoutSpecified := (getOptS attrs "layout").isSome }
-  if !getB attrs "wait_to_parse" then
-    let (d', out) ← descParse mc uid0 d {} true look
-    return (d', out.nextUid)
-  else
-    let (d', _) ← descPreprocess mc d none none none true
-    return (d', uid0)
+    Except PyErr (DescObj × Nat) :=
+  match resolveCfgArg config with
+  | .error e => .error e
+  | .ok c =>
+    let attrs := descInitAttrs c layout parseQQ waitToParse
+    let d : DescObj := { origDesc := raw, source := source, attrs := attrs, config := c, ppDesc := raw,
+                         layoutSpecified := (getOptS attrs "layout").isSome }
+    if !getB attrs "wait_to_parse" then
+      match descParse mc uid0 d {} true look with
+      | .error e => .error e
+      | .ok r => .ok (r.1, r.2.nextUid)
+    else
+      match descPreprocess mc d none none none true with
+      | .error e => .error e
+      | .ok r => .ok (r.1, uid0)
 
 end PyTRS.Obj
